@@ -256,7 +256,7 @@ def check_C11(ctx):
     jobs = [Job(g, "TestC11", name="C11:%s#%d" % (mode, sh), timeout=3600, env={"VERIF_PARAM_MODE": mode, "GOMAXPROCS": "4", "VERIF_SHARD": "%d/%d" % (sh, shards)})
             for mode in ("zstd", "uncompressed") for sh in range(shards)]
     return dict(level="exploration", jobs=jobs,
-                rule="message grammar: a fully populated valid ActionResult and four further valid shapes, plus one invalid field of each kind (empty/absolute path, empty target, nil digest, empty element, negative size, short/upper-case/non-hex/empty hash) at every position where it can occur (output files, output directories, the three symlink lists, stdout/stderr digests) x 5 encodings (gRPC, HTTP protobuf, HTTP JSON, each also zstd-wrapped); validation disabled; all 8 inline-request combinations x stdout size {small, exactly the 3 MiB budget, over it}; alternating overwrites through all encodings with invalid uploads in between; execution metadata: every subset of {worker, queued/completed timestamps, virtual duration, auxiliary metadata}; each optional part of the full message dropped alone; two deviations at once: ordered pairs of variants (quick: a valid shape with an invalid one, gRPC and HTTP protobuf; thorough: all ordered pairs, all five encodings), expected verdict from the harness's own reference validator, which is first checked against every single variant's label; non-trivial = distinct (message, encoding) cells accepted or rejected with the post-conditions checked",
+                rule="message grammar: a fully populated valid ActionResult and four further valid shapes, plus one invalid field of each kind (empty/absolute path, empty target, nil digest, empty element, negative size, short/upper-case/non-hex/empty hash) at every position where it can occur (output files, output directories, the three symlink lists, stdout/stderr digests) x 5 encodings (gRPC, HTTP protobuf, HTTP JSON, each also zstd-wrapped); validation disabled; all 8 inline-request combinations x stdout size {small, exactly the 3 MiB budget, over it}; alternating overwrites through all encodings with invalid uploads in between; execution metadata: every subset of {worker, queued/completed timestamps, virtual duration, auxiliary metadata}; each optional part of the full message dropped alone; two deviations at once: ordered pairs of variants (quick: a valid shape with an invalid one, gRPC and HTTP protobuf; thorough: all ordered pairs, all five encodings), expected verdict from the harness's own reference validator, which is first checked against every single variant's label; inline cells for results uploaded over gRPC and over HTTP: after every hit each de-inlined field's digest resolves in the CAS to the uploaded bytes; non-trivial = distinct (message, encoding) cells accepted or rejected with the post-conditions checked",
                 assumptions=["nil elements of repeated fields cannot be put on the wire by the protobuf runtime; empty elements stand in for them",
                              "an empty output-directory path is valid (REAPI: the working directory itself)"])
 
@@ -277,7 +277,7 @@ def check_C12(ctx):
         for mode in ("zstd", "uncompressed"):
             jobs.append(Job(g, "TestC12Chain", name="C12chain:%s/%s" % (via, mode), timeout=600, env={"VERIF_PARAM_VIA": via, "VERIF_PARAM_MODE": mode}))
     return dict(level="fault_enumeration", jobs=jobs,
-                rule="seam level: kind {CAS,AC,RAW} x storage mode x size known/unknown x plain/zstd read x backend deviation {none, error, not found, nil reader, size metadata +1/-1/-1/0/over max_proxy_blob_size, one-byte reads, cancelled context, stream error at EVERY byte offset, clean EOF at EVERY byte offset}; 1 deviation quick, pairs (second read deviates too) thorough; then a local-only read with the backend emptied (poisoning) and the quiescence invariants; plus explicit-state BFS over operation sequences with a backend (write-through exactly once, decodable; read-through; faults mixed into sequences); fault class oversize: the object really is larger than max_proxy_blob_size (limit = size-1, size/2): never served, never cached; non-trivial = distinct fault cells completed with the oracle checked",
+                rule="seam level: kind {CAS,AC,RAW} x storage mode x size known/unknown x plain/zstd read x backend deviation {none, error, not found, nil reader, size metadata +1/-1/-1/0/over max_proxy_blob_size, one-byte reads, cancelled context, stream error at EVERY byte offset, clean EOF at EVERY byte offset}; 1 deviation quick, pairs (second read deviates too) thorough; then a local-only read with the backend emptied (poisoning) and the quiescence invariants; plus explicit-state BFS over operation sequences with a backend (write-through exactly once, decodable; read-through; faults mixed into sequences); fault class oversize: the object really is larger than max_proxy_blob_size (limit = size-1, size/2): never served, never cached; HTTP chain: the stored object's own header lies about the logical size (0, -1, +-1; short and 4 MiB bodies) - leak oracles only (the backend is trusted for content); non-trivial = distinct fault cells completed with the oracle checked",
                 assumptions=["the backend is trusted for content it completely delivers (no bit flips)",
                              "scriptable in-memory cache.Proxy at the seam the real proxies implement; HTTP/gRPC proxy implementations are exercised by the chained-cache part",
                              "objects are 60-150 logical bytes so that every byte offset of the stored form is enumerated"] + E2_ASSUME[:2])
@@ -287,10 +287,10 @@ def check_C14(ctx):
     g = ctx.bin(GRID)
     jobs = []
     for mode in ("zstd", "uncompressed"):
-        for part in ("digests", "names", "http", "writes", "space", "aborts"):
+        for part in ("digests", "names", "http", "writes", "space", "aborts", "origin"):
             jobs.append(Job(g, "TestC14", name="C14:%s/%s" % (part, mode), timeout=2400, env={"VERIF_PARAM_MODE": mode, "VERIF_PARAM_PART": part, "GOMAXPROCS": "4"}))
     return dict(level="exploration", jobs=jobs,
-                rule="small-scope structural enumeration through the real handlers: 12 digest shapes (nil, empty, present, absent, empty blob, negative / huge size, four malformed hashes, zero size with a hash) at every digest position of every gRPC request type (pairs for SpliceBlob), FetchBlob uri x qualifier shapes, stored blobs (9 Directory, 5 Tree, 4 ActionResult shapes incl. nil digests and garbage) read back through GetTree / GetActionResult / HTTP; all token sequences up to length 4 (5 thorough) over 14 resource-name tokens for ByteStream.Read (x offsets, limits), Write and QueryWriteStatus; 21 URL paths x 9 HTTP methods; PUT header products (size header x encoding x content type x content length); all ByteStream.Write message sequences up to length 3 over 9 message kinds with a client abort after every prefix; uploads refused for lack of space through every write path (larger than max_size / space held by other requests' reservations / SpliceBlob whose chunks fit but whose result does not) x hard limit on/off with the leak oracle after every cell; downloads the client abandons (ByteStream.Read identity/zstd at offsets 0 and 1, HTTP GET plain/zstd over a real connection; one-chunk and multi-chunk blobs; before / after the first piece) with the garbage collector off, so a file closed only by its finalizer counts as left behind; non-trivial = distinct cells that completed",
+                rule="small-scope structural enumeration through the real handlers: 12 digest shapes (nil, empty, present, absent, empty blob, negative / huge size, four malformed hashes, zero size with a hash) at every digest position of every gRPC request type (pairs for SpliceBlob), FetchBlob uri x qualifier shapes, stored blobs (9 Directory, 5 Tree, 4 ActionResult shapes incl. nil digests and garbage) read back through GetTree / GetActionResult / HTTP; all token sequences up to length 4 (5 thorough) over 14 resource-name tokens for ByteStream.Read (x offsets, limits), Write and QueryWriteStatus; 21 URL paths x 9 HTTP methods; PUT header products (size header x encoding x content type x content length); all ByteStream.Write message sequences up to length 3 over 9 message kinds with a client abort after every prefix; uploads refused for lack of space through every write path (larger than max_size / space held by other requests' reservations / SpliceBlob whose chunks fit but whose result does not) x hard limit on/off with the leak oracle after every cell; downloads the client abandons (ByteStream.Read identity/zstd at offsets 0 and 1, HTTP GET plain/zstd over a real connection; one-chunk and multi-chunk blobs; before / after the first piece) with the garbage collector off, so a file closed only by its finalizer counts as left behind; FetchBlob against an origin answering 200/403/404/500/503 x {no body, 10 B, 100 KiB} x {Content-Length, chunked} x checksum qualifier {none, matching, other}: after each cell the origin holds no connection the cache has not given back; non-trivial = distinct cells that completed",
                 assumptions=["bounded-exhaustive over message shapes and token sequences (small-scope hypothesis), not byte-level fuzzing",
                              "gRPC handler panics are caught by the harness's interceptor and reported (the real server has no recovery: a panic there terminates the process)",
                              "leaks: goroutines inside repository request code, reserved bytes, directory==index and open descriptors are compared with the baseline every 64 cells and at the end; waits are by state with a 20 s cap"])
@@ -302,7 +302,7 @@ def check_C15(ctx):
     jobs = [Job(g, "TestC15", name="C15:instances/" + mode, timeout=1200, env={"VERIF_PARAM_MODE": mode, "GOMAXPROCS": "4"}) for mode in ("zstd", "uncompressed")]
     jobs += e2cache_jobs(ctx, "C15", 4 if th else 3, 1500 if th else 300, 8 if th else 2, proxies=("0",))
     return dict(level="model_checking", jobs=jobs,
-                rule="explicit-state BFS over operation sequences on a real disk cache in which the CAS, AC and RAW key spaces collide on ONE hash (uploads good and failing, overwrites, evictions, lookups, zstd reads), compared with three independent reference maps on every transition; plus the full product of 12 instance names (empty, nested, containing ac/cas/blobs/uploads segments, unicode, spaces, case, trailing slash) x store via gRPC or HTTP x read via gRPC or HTTP under every instance name x mangling on/off x HTTP validation on/off; server level: every HTTP action-cache lookup repeated by a client that accepts zstd (must answer identically, never compressed); one hash stored as CAS blob, validated and raw action result in six orders",
+                rule="explicit-state BFS over operation sequences on a real disk cache in which the CAS, AC and RAW key spaces collide on ONE hash (uploads good and failing, overwrites, evictions, lookups, zstd reads), compared with three independent reference maps on every transition; plus the full product of 12 instance names (empty, nested, containing ac/cas/blobs/uploads segments, unicode, spaces, case, trailing slash) x store via gRPC or HTTP x read via gRPC or HTTP under every instance name x mangling on/off x HTTP validation on/off; server level: every HTTP action-cache lookup repeated by a client that accepts zstd (must answer identically, never compressed); one hash stored as CAS blob, validated and raw action result in six orders; 20 instance names incl. eight longer than 64 bytes that agree in their first 62/63/64/100 bytes",
                 assumptions=E2_ASSUME + ["instance names without leading/trailing slash (REAPI-conformant); an HTTP path with an empty segment is redirected by net/http before it reaches the handler"])
 
 
@@ -312,7 +312,7 @@ def check_C16(ctx):
     jobs = [Job(g, "TestC16", name="C16:%s#%d" % (mode, sh), timeout=1200, env={"VERIF_PARAM_MODE": mode, "VERIF_SHARD": "%d/%d" % (sh, shards), "GOMAXPROCS": "4"})
             for mode in ("zstd", "uncompressed") for sh in range(shards)]
     return dict(level="exploration", jobs=jobs,
-                rule="ByteStream.Write streams over the real handler: {identity, zstd} x blob present/absent x finish_write {last, none, on the first of several messages} x later resource names {omitted, repeated, changed} x first write_offset {0,1} x declared size {n, n-1, n+1} plus six resource-name shapes; for the base variants ALL compositions of a 6-byte payload into 1..4 (5 thorough) messages incl. empty ones, for deviating variants a spread; each followed by FindMissingBlobs and QueryWriteStatus; blob present only in a proxy backend x backend reports exact / unknown (-1) size x identity/zstd x all compositions into <=3 messages x complete / first-message-only stream; non-trivial = distinct (variant, composition) cells",
+                rule="ByteStream.Write streams over the real handler: {identity, zstd} x blob present/absent x finish_write {last, none, on the first of several messages} x later resource names {omitted, repeated, changed} x first write_offset {0,1} x declared size {n, n-1, n+1} plus six resource-name shapes; for the base variants ALL compositions of a 6-byte payload into 1..4 (5 thorough) messages incl. empty ones, for deviating variants a spread; each followed by FindMissingBlobs and QueryWriteStatus; blob present only in a proxy backend x backend reports exact / unknown (-1) size x identity/zstd x all compositions into <=3 messages x complete / first-message-only stream; instance-name shapes with segments ending in 'uploads' / containing 'blobs', unicode; non-trivial = distinct (variant, composition) cells",
                 assumptions=["through the real gRPC server over bufconn with the real client stream API",
                              "the interleaving of the handler's three goroutines is whatever the runtime picks; the oracle only contains outcomes that do not depend on it"])
 
@@ -326,7 +326,7 @@ def check_C18(ctx):
             jobs.append(Job(g, "TestC18", name="C18:write/%s#%d" % (mode, sh), timeout=3600, env={"VERIF_PARAM_MODE": mode, "GOMAXPROCS": "4", "VERIF_SHARD": "%d/%d" % (sh, shards)}))
         jobs.append(Job(g, "TestC18Proxy", name="C18:proxy/" + mode, timeout=3600, env={"VERIF_PARAM_MODE": mode, "GOMAXPROCS": "4"}))
     return dict(level="exploration", jobs=jobs,
-                rule="max_blob_size L in {1, 4 KiB, 1 MiB} (thorough: 11 limits incl. 2, 100, 4 KiB+-1, 64 KiB, 1 MiB+-1, 2 MiB+1) x item size {L-1, L, L+1, 4L} (thorough: 1, L/2, L-1, L, L+1, L+2, 2L, 4L+1) x 13 write paths x {incompressible, highly compressible} content (so that the transport size differs from the logical size) x storage mode; max_proxy_blob_size P in {100, 4096} x backend object {P-1, P, P+1} x {Get size known/unknown, GetZstd, Contains known/unknown, FindMissingBlobs, AC dependency check}; GetCapabilities; the action-cache entry itself as the item (serialised ActionResult of L-1, L, L+1, 4L bytes via gRPC and HTTP); a refused ac_* upload must not leave its ActionResult behind; non-trivial = distinct cells on both sides of each limit",
+                rule="max_blob_size L in {1, 4 KiB, 1 MiB} (thorough: 11 limits incl. 2, 100, 4 KiB+-1, 64 KiB, 1 MiB+-1, 2 MiB+1) x item size {L-1, L, L+1, 4L} (thorough: 1, L/2, L-1, L, L+1, L+2, 2L, 4L+1) x 13 write paths x {incompressible, highly compressible} content (so that the transport size differs from the logical size) x storage mode; max_proxy_blob_size P in {100, 4096} x backend object {P-1, P, P+1} x {Get size known/unknown, GetZstd, Contains known/unknown, FindMissingBlobs, AC dependency check}; GetCapabilities; the action-cache entry itself as the item (serialised ActionResult of L-1, L, L+1, 4L bytes via gRPC and HTTP); a refused ac_* upload must not leave its ActionResult behind; oversize items that are ALREADY present (directory filled without a limit, restarted with max_blob_size) through every CAS write path; non-trivial = distinct cells on both sides of each limit",
                 assumptions=["in-process servers; the disk cache and both front ends are configured with the same limit, as main() does"])
 
 
@@ -349,7 +349,7 @@ def check_C19(ctx):
     b = ctx.bin("./config")
     jobs = [Job(b, "TestVfC19", name="C19:config", timeout=2400)]
     return dict(level="exploration", jobs=jobs,
-                rule="deviation-bounded configuration enumeration: the required settings plus every subset of <=2 (thorough <=3) of 28 further settings x their values (with the companions a setting needs), each rendered as command-line flags, as environment variables and as YAML and parsed by the real flag/YAML code; deprecated host/port forms against the address forms; 21 invalid classes, each alone and combined with every single other valid deviation; non-trivial = distinct configurations on which the three front ends were compared",
+                rule="deviation-bounded configuration enumeration: the required settings plus every subset of <=2 (thorough <=3) of 28 further settings x their values (with the companions a setting needs), each rendered as command-line flags, as environment variables and as YAML and parsed by the real flag/YAML code; deprecated host/port forms against the address forms; 21 invalid classes, each alone and combined with every single other valid deviation; mixed listener forms (one listener in the current, the other in the deprecated form); non-trivial = distinct configurations on which the three front ends were compared",
                 assumptions=["basic Config fields are compared (loggers, TLS objects and proxy clients are not constructed)",
                              "listener addresses and max_size_hard_limit are always given explicitly because their defaults intentionally differ between flags and YAML"])
 
@@ -417,7 +417,7 @@ def check_C13(ctx):
                     jobs.append(Job(b, "TestVfC13", name="C13:%s/unauth%s/metrics%s/asset%s/%s" % (a, u, m, asset, extra), timeout=600,
                                     env={"VERIF_PARAM_AUTH": a, "VERIF_PARAM_UNAUTHREADS": u, "VERIF_PARAM_METRICS": m, "VERIF_PARAM_ASSET": asset, "VERIF_PARAM_EXTRA": extra, "GOMAXPROCS": "2"}))
     return dict(level="exploration", jobs=jobs,
-                rule="full product {no auth, htpasswd, mTLS} x allow_unauthenticated_reads x endpoint metrics x one further option of {none, idle_timeout, http_metrics_prefix, instance mangling, no deps check, uncompressed storage, max_blob_size, HTTP timeouts, HTTP AC validation off, hard limit} x 7 HTTP methods x 6 endpoints x every gRPC method of every protobuf service linked into the binary that the server has registered x credential state; against the real run() of package main on unix sockets; non-trivial = distinct (config, method, endpoint, credential) cells where authentication was enabled and the expected decision was observed",
+                rule="full product {no auth, htpasswd, mTLS} x allow_unauthenticated_reads x endpoint metrics x one further option of {none, idle_timeout, http_metrics_prefix, instance mangling, no deps check, uncompressed storage, max_blob_size, HTTP timeouts, HTTP AC validation off, hard limit} x 7 HTTP methods x 6 endpoints x every gRPC method of every protobuf service linked into the binary that the server has registered x credential state; against the real run() of package main on unix sockets; mTLS credential states {no certificate, certificate of an unknown CA, certificate of a CA that is the process's system trust store but not in tls_ca_file, valid}, certificates presented unconditionally; non-trivial = distinct (config, method, endpoint, credential) cells where authentication was enabled and the expected decision was observed",
                 assumptions=["one server process per configuration, started through main's run() with command-line flags; certificates generated with crypto/x509; htpasswd entry {SHA}",
                              "gRPC requests are empty messages: a method counts as registered when a fully authorised client does not get Unimplemented",
                              "a method unknown to the harness's read-only list is treated as mutating"])
